@@ -49,6 +49,9 @@ def main():
             res["demo_without_change_rc"] = r.returncode
         r = sh(f"git -C {wt} apply --whitespace=nowarn {patch}")
         if r.returncode:
+            # the repository may have moved on since the change was written: retry with fuzz
+            r = sh(f"cd {wt} && patch -p1 -F3 --no-backup-if-mismatch < {patch}")
+        if r.returncode:
             print("patch does not apply:", r.stderr[:500])
             res["applies"] = False
             print(json.dumps(res))
